@@ -112,6 +112,7 @@ func checkC15(p *core.Program, r *core.Report) {
 		"Decided by a forward must-propagate dataflow over go/cfg with nil-test edge refinement, for every cut point at which some section reader fails. Not decided: that gnark's decoders fail (rather than panic/hang/succeed) on every strict prefix."
 	r.Rule("O15.1", "each fallible call inside the ProvingSystem reader methods (and in-repo helpers of the load chain) propagates its error on every path where it is non-nil")
 	r.Rule("O15.2", "each fallible call in the loader functions (ReadSystemFrom*) reaches the named/returned error on every path")
+	r.Rule("O15.4", "the load chain terminates with an error on a short file: a pipe's write end is closed on every path; a deferred function does not call through a field of the system that is still unset on early error returns")
 	r.Rule("O15.3", "callers of a loader do not use the returned system before the error is ruled out and return the error")
 	r.Trusted = append(r.Trusted, "go/types, go/cfg construction", "gnark section decoders report truncation as an error", "io.ReadFull returns an error on short reads")
 	r.NotDecided = append(r.NotDecided, "behaviour of gnark/gnark-crypto decoders on truncated input (panic, hang)", "S3 transport failures beyond the returned error")
@@ -155,6 +156,8 @@ func checkC15(p *core.Program, r *core.Report) {
 			}
 		}
 	}
+	// O15.4: a truncated file makes the loader return, not hang or panic
+	checkLoadChainTermination(p, r, li.chain, li.ps)
 	// O15.3 callers
 	inChain := map[ast.Node]bool{}
 	for _, u := range li.chain {
